@@ -319,7 +319,21 @@ type c24Env struct {
 
 var c24env *c24Env
 
+// c24NewEnv retries with further loopback addresses: other processes on the machine may
+// hold the one testutil hands out.
 func c24NewEnv() (*c24Env, error) {
+	var err error
+	for i := 0; i < 40; i++ {
+		var e *c24Env
+		if e, err = c24NewEnvOnce(); err == nil {
+			return e, nil
+		}
+		time.Sleep(time.Duration(5*(i+1)) * time.Millisecond)
+	}
+	return nil, err
+}
+
+func c24NewEnvOnce() (*c24Env, error) {
 	ip, ret := testutil.TakeIP()
 	sc := serf.DefaultConfig()
 	sc.Init()
@@ -336,13 +350,12 @@ func c24NewEnv() (*c24Env, error) {
 	lw := agent.NewLogWriter(512)
 	a, err := agent.Create(agent.DefaultConfig(), sc, io.MultiWriter(lg, lw))
 	if err != nil {
-		ret()
 		return nil, err
 	}
 	h := &c24Handler{}
 	a.RegisterEventHandler(h)
 	if err := a.Start(); err != nil {
-		ret()
+		_ = a.Shutdown()
 		return nil, err
 	}
 	newIPC := func(key string, l net.Listener) *agent.AgentIPC { return agent.NewAgentIPC(a, key, l, lg, lw, false) }
